@@ -180,18 +180,7 @@ def r1_scan(program, rep):
                             "field's position and of its length")
     cb, _, S = commits[0]
     L = lcommits[0][2]
-    # acceptance: S + L <= self.length where the position is committed
-    acc = False
-    want = _poly(fl, S) + _poly(fl, L)
-    for t, p in T.all_facts(cb.node):
-        if p and t[0] == "cmp" and t[1] == "LtE" and t[3] == SLEN:
-            try:
-                acc = acc or _poly(fl, t[2]) == want
-            except AnalysisError:
-                pass
-    rep.check(acc, "C08-R1", inst, "a placement is accepted iff start + "
-              "length <= the bit field's length", construct="acceptance "
-              "bound", node=fn)
+    Lp = _poly(fl, L)
     # the scan (floating case)
     loops = [n for n in ast.walk(fn) if isinstance(n, ast.For) and
              isinstance(n.iter, ast.Call) and
@@ -209,8 +198,6 @@ def r1_scan(program, rep):
         lo, hi = _poly(fl, args[0]), _poly(fl, args[1])
     else:
         raise AnalysisError("_assign_field: scan with a step")
-    Lp = _poly(fl, floating.term(ast.parse("0", mode="eval").body, head)) \
-        if False else _poly(fl, L)
     rep.check(lo == Poly.const(0), "C08-R1", inst, "the scan starts at bit "
               "0", construct="scan start %r" % (lo,), node=lp)
     rep.check((hi - 1) + Lp == _poly(fl, SLEN), "C08-R1", inst,
@@ -285,11 +272,17 @@ def r1_scan(program, rep):
         # keeps the sentinel position, which the acceptance test rejects
         alts = [plain(x) for x in alternatives(floating.term(rets[0].value,
                                                              rn))]
-        okr = okr and plain(OCC0) in alts and len(alts) == 2
-        sent = [plain(x) for x in alternatives(floating._bind_term(cb))
-                ] if False else [plain(x) for x in alternatives(
-                    floating.term(cb.value, cb.node))]
-        okr = okr and plain(SLEN) in sent and len(sent) == 2
+        sent = [plain(x) for x in alternatives(
+            floating.term(cb.value, cb.node))]
+        if plain(OCC0) in alts:
+            # a fruitless scan returns the occupancy unchanged: the position
+            # it leaves must be the sentinel the acceptance test rejects
+            okr = okr and len(alts) == 2 and plain(SLEN) in sent and \
+                len(sent) == 2
+        else:
+            # every path that returns has taken a position (a fruitless
+            # scan raises)
+            okr = okr and len(alts) == 1 and len(sent) == 1
     rep.assume("field lengths are >= 1 (add_field rejects length <= 0; the "
                "automatic length is >= 1)")
     rep.check(okr, "C08-R4", inst, "every successful placement adds the "
@@ -304,6 +297,86 @@ def r1_scan(program, rep):
               "- 1) << position, or-ed into the occupancy on the path that "
               "takes the position", construct="field_bits formula", node=fn)
     rep.floor("C08-R1", 4)
+
+
+def r1_accept(program, rep):
+    """A placement is committed only when start + length <= the bit field's
+    length: by an explicit test on the path to the commit, or (floating
+    fields) because the position comes from a scan whose range ends where
+    the field still fits."""
+    fn = program.get(BF + "._assign_field")
+    inst = qual(fn)
+    for h in ast.walk(fn):
+        if h is not fn and getattr(h, "_virtual", False) and any(
+                isinstance(x, ast.Raise) for x in ast.walk(h)):
+            raise AnalysisError("_assign_field: the helper %s can reject a "
+                                "placement itself; these rules do not follow "
+                                "it" % h.name)
+    T = Terms(fn)
+    fl = Flow(fn)
+    cfg = T.cfg
+    FIELD = None
+    for c in calls_in(fn, "get_field"):
+        FIELD = T.term(c)
+    if FIELD is None:
+        raise AnalysisError("_assign_field: the field looked up")
+    START0 = _read_of(T, FIELD, "start_at")
+    commits = _attr_binds(T, lambda X: X == FIELD, "start_at")
+    lcommits = _attr_binds(T, lambda X: X == FIELD, "length")
+    if len(commits) != 1 or len(lcommits) != 1:
+        raise AnalysisError("_assign_field: expected one commit of the "
+                            "field's position and of its length")
+    cb = commits[0][0]
+    Lt_ = lcommits[0][2]
+    SL = _poly(fl, SLEN)
+
+    def bounded(H, S):
+        want = _poly(fl, S) + _poly(fl, Lt_) - SL
+        for t, p in H.all_facts(cb.node):
+            if t[0] != "cmp" or t[1] not in ("Lt", "LtE"):
+                continue
+            a, b = (t[2], t[3]) if p else (t[3], t[2])
+            if (t[1] == "LtE") != bool(p):
+                continue            # a strict bound: not the test looked for
+            try:
+                if _poly(fl, a) - _poly(fl, b) == want:
+                    return True
+            except AnalysisError:
+                pass
+        return False
+    fixed = T.under((is_none(START0), False))
+    floating = T.under((is_none(START0), True))
+    if not fixed.live(cb.node) or not floating.live(cb.node):
+        raise AnalysisError("_assign_field: the commit is not reached for "
+                            "both fixed and floating fields")
+    okf = bounded(fixed, START0)
+    rep.check(okf, "C08-R1", inst, "a field with a fixed position is "
+              "accepted only if start + length <= the bit field's length",
+              construct="acceptance bound (fixed)", node=cb.node.ast,
+              fail="a field with a fixed position is committed without "
+                   "start + length <= length of the bit field having been "
+                   "tested on the way: the field can extend beyond the top "
+                   "of the bit field (add_field can only test a width of "
+                   "one bit when the length is automatic)")
+    whole = floating.term(cb.value, cb.node)
+    vals = [] if bounded(floating, whole) else list(alternatives(whole))
+    okl = True
+    for v in vals:
+        if bounded(floating, v):
+            continue
+        pv = plain(v)
+        # a position produced by a range() scan is bounded by the scan's
+        # range (whose end r1_scan compares with self.length - length)
+        if pv[0] == "elem" and pv[1][0] == "call" and \
+                pv[1][1] == ("global", "range"):
+            continue
+        okl = False
+    rep.check(okl, "C08-R1", inst, "a floating field is accepted only at a "
+              "position with start + length <= the bit field's length",
+              construct="acceptance bound (floating)", node=cb.node.ast)
+
+
+r1_accept.helper_aware = True
 
 
 def r2_explicit(program, rep):
@@ -1093,6 +1166,7 @@ def r6_own_tags(program, rep):
 
 def check(program, rep):
     program.module("rig.bitfield")
+    rep.guard("C08-R1", r1_accept, program, rep)
     rep.guard(["C08-R1", "C08-R3", "C08-R4"], r1_scan, program, rep)
     rep.guard("C08-R2", r2_explicit, program, rep)
     rep.guard(["C08-R3", "C08-R4"], r3_masks, program, rep)
